@@ -64,6 +64,10 @@ def d_known(g, tier):
     return ops
 
 
+def d_struct(g, tier):
+    return gen.struct_session(g, tier)
+
+
 def d_scale(g, tier):
     return gen.scale_sessions(g, tier)
 
@@ -122,7 +126,7 @@ def vector_ops(name, tier, seed):
 
 
 DRIVERS = {"corpus": d_corpus, "conformant": d_conformant, "mutate": d_mutate, "truncate": d_truncate,
-           "hostile": d_hostile, "protocols": d_protocols, "rounds": d_rounds, "known": d_known, "scale": d_scale}
+           "hostile": d_hostile, "protocols": d_protocols, "rounds": d_rounds, "known": d_known, "scale": d_scale, "struct": d_struct}
 
 LIGHT_DRIVERS = {"scale"}      # adversarial 64 KiB inputs: totality, accounting and cost only (Trace.tla, LIGHT=1)
 
@@ -136,7 +140,7 @@ PROP_DRIVERS = {
     "C05": ["corpus", "conformant"],
     "C06": ["corpus", "conformant", "mutate", "rounds"],
     "C07": ["corpus", "conformant", "mutate"],
-    "C08": ["corpus", "conformant", "mutate"],
+    "C08": ["corpus", "conformant", "mutate", "struct"],
     "C09": ["corpus", "conformant", "mutate"],
     "C10": ["corpus", "conformant", "mutate"],
     "C11": ["corpus", "conformant", "rounds"],
@@ -176,7 +180,7 @@ def driver_run(name, tier, seed, puf=True, keep_trace=False):
     res = vf.validate(trf, cdir, env_extra=env_extra or None)
     res["trace"] = trf
     res["driver"] = name
-    res["calls"] = sum(1 for o in ops if o.get("op") == "call")
+    res["calls"] = sum(1 for o in ops if o.get("op") in ("call", "flat", "struct"))
     res["sessions"] = sum(1 for o in ops if o.get("op") == "reset")
     res["wall_s"] = round(time.time() - t, 1)
     res["harness"] = info
